@@ -1,0 +1,27 @@
+//go:build verif
+
+// Contracts for package apis/common (comment-only; read by /verif/govc).
+
+package common
+
+//@ // Tunnel frame (docs/protocol.md, UDP associate over a stream):
+//@ //   0x00 | 2-byte big-endian length | payload | 0xff
+//@ func (c *PacketOverStreamTunnel) Write(p []byte) (n int, err error)
+//@   property C18 C09
+//@   mode int
+//@   requires c != nil && c.Conn != nil
+//@   ensures len(p) > 65535 ==> err != nil && ghost(wr) == old(ghost(wr))
+//@   ensures err == nil ==> n == len(p) && len(p) <= 65535 && ghost(wr) == old(ghost(wr)) + mathint(len(p)) + 4
+//@   ensures err == nil ==> ghost(out)[old(ghost(wr))] == 0 && mathint(ghost(out)[old(ghost(wr)) + 1]) * 256 + mathint(ghost(out)[old(ghost(wr)) + 2]) == mathint(len(p))
+//@   ensures err == nil ==> forall(i, 0, len(p), ghost(out)[old(ghost(wr)) + 3 + mathint(i)] == p[i])
+//@   ensures err == nil ==> ghost(out)[old(ghost(wr)) + 3 + mathint(len(p))] == 255
+//@
+//@ func (c *PacketOverStreamTunnel) Read(p []byte) (n int, err error)
+//@   property C18 C09 C10
+//@   mode int
+//@   requires c != nil && c.Conn != nil && typeof(c.Conn) != typeid(*bytes.Reader)
+//@   modifies p[..]
+//@   ensures err == nil ==> instream(old(ghost(rd))) == 0 && mathint(n) == mathint(instream(old(ghost(rd)) + 1)) * 256 + mathint(instream(old(ghost(rd)) + 2)) && n <= len(p)
+//@   ensures err == nil ==> forall(i, 0, n, p[i] == instream(old(ghost(rd)) + 3 + mathint(i)))
+//@   ensures err == nil ==> instream(old(ghost(rd)) + 3 + mathint(n)) == 255 && ghost(rd) == old(ghost(rd)) + mathint(n) + 4
+//@   ensures err != nil ==> n == 0
